@@ -165,6 +165,14 @@ pub fn run(ctx: &RunCtx) -> i32 {
         let mut r = Report::new();
         relations(&s.bytes, "seed", &decs, &mut r);
         r.sym("seeds");
+        // every construction route of every configuration decodes the seed like the canonical decoder
+        {
+            let routes = crate::cu::all_routes(Some(&key), &crate::cu::all_opts());
+            let replay = || json!({"kind": "bytes", "bytes": hex(&s.bytes), "seed": s.label});
+            let n = crate::cu::routes_agree(&routes, &s.bytes, &mut r, &replay);
+            r.add_extra("decoder_construction_routes_compared", n);
+            r.sym("decoder-construction-routes");
+        }
         let fam = Families { bits: thorough || s.bytes.len() <= 80, bytes: true, truncate: true, lengths: true, strings: true, splice: true };
         faults::single_faults(&s.bytes, fam, &mut |m, class| {
             relations(m, class, &decs, &mut r);
@@ -243,9 +251,9 @@ pub fn run(ctx: &RunCtx) -> i32 {
         rep,
         Finish {
             level: "exploration",
-            rule: format!("{} seeds (menu messages x tails, RFC 5769 vectors, messages with unknown comprehension-required / -optional attributes of 0..5 value bytes), every single-fault mutant of each (bit flips only for seeds <=80 bytes in the quick tier), and every {{O,MI,SHA,FP}} sequence up to length 5 (6 thorough) with all-correct and all-wrong checksum values; plus the offset family (three unknown-attribute bodies x three tails behind a filler at every 4-aligned body offset 0..=4200 (thorough 16,400), around multiples of 4096 (1024) and at every offset 65,300..=65,532); each byte string decoded under all 16 option combinations and without context, results compared pairwise against the five stated relations. Non-trivial = distinct byte string for which at least one not-ignore configuration decoded successfully", n_seeds),
+            rule: format!("{} seeds (menu messages x tails, RFC 5769 vectors, messages with unknown comprehension-required / -optional attributes of 0..5 value bytes), every single-fault mutant of each (bit flips only for seeds <=80 bytes in the quick tier), and every {{O,MI,SHA,FP}} sequence up to length 5 (6 thorough) with all-correct and all-wrong checksum values; plus the offset family (three unknown-attribute bodies x three tails behind a filler at every 4-aligned body offset 0..=4200 (thorough 16,400), around multiples of 4096 (1024) and at every offset 65,300..=65,532); every seed also decoded through every construction route of every configuration (builder calls in every order, a repeated call, clones of the decoder and of the context, DecoderContext::default(), MessageDecoder::default()), which must agree with the canonical decoder; each byte string decoded under all 16 option combinations and without context, results compared pairwise against the five stated relations. Non-trivial = distinct byte string for which at least one not-ignore configuration decoded successfully", n_seeds),
             assumptions: vec!["raw value bytes of unknown attributes are taken from the independent TLV reader".into()],
-            required_symbols: vec!["seeds", "kind-sequences", "offset-family", "unknown-data-compared", "bit-flip", "attribute-move"],
+            required_symbols: vec!["seeds", "kind-sequences", "offset-family", "decoder-construction-routes", "unknown-data-compared", "bit-flip", "attribute-move"],
             min_outcomes: 2,
             exhaustive: true,
             bounds: json!({"seeds": n_seeds}),
